@@ -567,6 +567,45 @@ func runC17(c *eng.Ctx) {
 		}
 	})
 
+	// ---- the parser never hands out an operator node with a missing operand -------------------------------------------------------------
+	c.Rule("GUARD", "sql.queryStmtParser.completeFieldExpr{operands present}", func() {
+		// the grammar lets a duration literal or `*` stand where a field expression is expected (select f+1m …, select (1m) …);
+		// visitExprAtom ignores such atoms, so the Paren / Binary node popped at the end of the production has a nil child:
+		// it marshals as `null` and the leaf can not read the statement back.  Necessary condition: the node popped as complete
+		// is tested for nil operands (and the statement refused) before it becomes a parameter or a select item.
+		f := c.Fn("sql.queryStmtParser.completeFieldExpr")
+		checked := map[string]bool{}
+		for _, b := range eng.BlocksT(f) {
+			for _, in := range b.Instrs {
+				bo, ok := in.(*ssa.BinOp)
+				if !ok || bo.Op != token.EQL && bo.Op != token.NEQ {
+					continue
+				}
+				if strings.HasSuffix(p.FuncKey(in.Parent()), ".setExprParam") {
+					continue // setExprParam tests Left/Right to decide WHERE a parameter goes, not whether the node is complete
+				}
+				var other ssa.Value
+				if eng.IsNilConst(bo.X) {
+					other = bo.Y
+				} else if eng.IsNilConst(bo.Y) {
+					other = bo.X
+				} else {
+					continue
+				}
+				for _, k := range []string{"sql/stmt.ParenExpr.Expr", "sql/stmt.BinaryExpr.Left", "sql/stmt.BinaryExpr.Right"} {
+					if eng.DependsOnField(other, k) {
+						checked[k] = true
+					}
+				}
+			}
+		}
+		for _, k := range []string{"sql/stmt.ParenExpr.Expr", "sql/stmt.BinaryExpr.Left", "sql/stmt.BinaryExpr.Right"} {
+			c.Check(checked[k], "nil-operand-refused:"+k, nil, f,
+				"a parenthesised / binary expression is completed only with its operands present ("+k+" tested against nil): a statement with a missing operand is refused by the parser instead of being sent to the leaves in a form they can not decode",
+				"no nil test of "+k+" in completeFieldExpr (or its helpers)")
+		}
+	})
+
 	// ---- custom wire forms: encoder and decoder of one type are inverse by construction, and no number is narrowed on the way ---------
 	c.Rule("SYMMETRY", "sql/stmt{MarshalJSON / UnmarshalJSON pairs: same codec, no narrowing}", func() {
 		pk := p.Package("sql/stmt")
